@@ -373,7 +373,9 @@ func (e *Enc) heapGet(st *State, hk *heapKey) string {
 	if !e.declSet[name] && ep == 0 && hk.Sort == "(Array Int (Array Int Int))" && isRefLeaf(hk.Leaf) {
 		// references stored in the entry heap denote objects that existed at entry
 		e.declare(name, hk.Sort)
-		e.assume("(forall ((r Int) (i Int)) (! (<= (select (select " + name + " r) i) alloc0) :pattern ((select (select " + name + " r) i))))")
+		// (cells of objects allocated later are unconstrained: an extern contract may say
+		// that a fresh object's fields are fresh too)
+		e.assume("(forall ((r Int) (i Int)) (! (=> (<= r alloc0) (<= (select (select " + name + " r) i) alloc0)) :pattern ((select (select " + name + " r) i))))")
 	}
 	e.declare(name, hk.Sort)
 	st.heap[hk.Key] = name
